@@ -10,3 +10,4 @@ import Helm.Props.C06
 #print axioms Helm.Props.C06.client_only_sends_nothing
 #print axioms Helm.Props.C06.dry_run_spellings_are_the_models
 #print axioms Helm.Props.C06.upgrade_install_forwards_dry_run
+#print axioms Helm.Props.C06.dry_run_flag_bound
